@@ -318,6 +318,21 @@ func eval(c Case) (f *pbt.Fail) {
 			return pbt.Failf("consumed", "Scan(*bufio.Reader) consumed the stream: %d of %d bytes left", len(rest), len(b))
 		}
 	}
+	// a reader that does not stand at its beginning (a file positioned at an embedded image, a section of a larger stream):
+	// the stream to be sniffed is what the reader still has to give, not the underlying data from offset 0
+	for _, lead := range []string{"\xff\xd8\xff\xe1\x00\x10JFIF", "\x89PNG\r\n\x1a\n\x00\x00\x00\rIHDR\x00\x00\x00\x01\x00\x00\x00\x01\x08"} {
+		rd := bytes.NewReader(append([]byte(lead), b...))
+		if _, err := rd.Seek(int64(len(lead)), io.SeekStart); err != nil {
+			return pbt.Failf("", "seek: %v", err)
+		}
+		t, e = imagetype.Scan(rd)
+		rs = append(rs, res{fmt.Sprintf("Scan(bytes.Reader standing %d bytes into its data)", len(lead)), t, e})
+		sr := io.NewSectionReader(bytes.NewReader(append([]byte(lead), b...)), int64(len(lead)), int64(len(b)))
+		t, e = imagetype.Scan(sr)
+		rs = append(rs, res{"Scan(io.SectionReader)", t, e})
+		t, e = imagetype.ReadAt(io.NewSectionReader(bytes.NewReader(append([]byte(lead), b...)), int64(len(lead)), int64(len(b))))
+		rs = append(rs, res{"ReadAt(io.SectionReader)", t, e})
+	}
 	if len(b) < 24 {
 		for _, r := range rs {
 			if r.t != imagetype.ImageUnknown || r.e == nil {
